@@ -120,6 +120,21 @@ func genLitCases(c *Ctx) []litCase {
 			big.NewInt(-1), big.NewInt(0), big.NewInt(1),
 			new(big.Int).Sub(hi, one), hi, new(big.Int).Add(hi, one),
 		}
+		// the machine-word edges inside the type's range: a literal of a wide type that happens to
+		// fit (or just not fit) into 32 / 64 signed or unsigned bits
+		for _, k := range []uint{31, 32, 63, 64} {
+			if int(k) >= t.bits {
+				continue
+			}
+			p2 := new(big.Int).Lsh(one, k)
+			for _, dlt := range []int64{-1, 0} {
+				v := new(big.Int).Add(p2, big.NewInt(dlt))
+				vals = append(vals, v)
+				if t.signed {
+					vals = append(vals, new(big.Int).Neg(v))
+				}
+			}
+		}
 		rng := core.CaseRng(c.Env.Seed, "C10-"+t.name, 0)
 		// 2^k +- 1 around limb / width edges
 		ks := []int{7, 8, 15, 16, 31, 32, 63, 64, 65, 127, 128, 129, 255, 256, 257}
@@ -223,7 +238,7 @@ func (lc litCase) id(i int, seed int64) string {
 
 func checkC10(c *Ctx) error {
 	r := c.R
-	r.Rule = "integer literals (decimal/0x/0o/0b, optional '_' separators, optional leading '-') at values min-1,min,min+1,-1,0,1,max-1,max,max+1, 2^k+-1 and random magnitudes up to 2^300 for each of the 12 integer types, in positions typed let / argument / return and, beyond the three positions the property names, assignment, compound assignment, binary operand, struct field, fixed/dynamic array element, element assignment, const initialiser and catch fallback; each is one program type-checked by the real compiler (accept must equal math/big range test), and every accepted literal is printed by a native executable (and by the wasm module for <=64-bit types) and compared with the value; non-trivial = a distinct (type, spelling, position) whose verdict was decided"
+	r.Rule = "integer literals (decimal/0x/0o/0b, optional '_' separators, optional leading '-') at values min-1,min,min+1,-1,0,1,max-1,max,max+1, +-2^31, +-2^32, +-2^63, +-2^64 (and one less) where inside the type, 2^k+-1 and random magnitudes up to 2^300 for each of the 12 integer types, in positions typed let / argument / return and, beyond the three positions the property names, assignment, compound assignment, binary operand, struct field, fixed/dynamic array element, element assignment, const initialiser and catch fallback; each is one program type-checked by the real compiler (accept must equal math/big range test), and every accepted literal is printed by a native executable (and by the wasm module for <=64-bit types) and compared with the value; non-trivial = a distinct (type, spelling, position) whose verdict was decided"
 	r.Assumptions = []string{"decimal spellings with a leading zero are not generated (base undefined by the language)", "'-' directly precedes the digits (the lexer's number token carries the sign)"}
 	cases := genLitCases(c)
 	tcs := make([]TC, len(cases))
